@@ -89,6 +89,21 @@ func init() {
 			}
 			add(append(append([]wire.Node{}, va...), dtNode("datetime", -1), wire.Node{K: "method", Name: "string"}), vars, false)
 		}
+		fracRows, err := readNDJSON[strRow](filepath.Join(rc.Dir, "fracstrings.ndjson"))
+		if err != nil {
+			rc.infra("%v", err)
+			return
+		}
+		for _, r := range fracRows {
+			vars := []wire.Var{{K: wire.Bytes("a"), V: wire.Value{T: "str", S: r.S}}}
+			for _, m := range []string{"time", "time_tz", "timestamp", "timestamp_tz"} {
+				for p := 0; p <= 7; p++ {
+					add(append(append([]wire.Node{}, va...), dtNode(m, p)), vars, false)
+					add(append(append([]wire.Node{}, va...), dtNode(m, p), wire.Node{K: "method", Name: "string"}), vars, false)
+				}
+			}
+			add(append(append([]wire.Node{}, va...), dtNode("datetime", -1)), vars, false)
+		}
 		for _, t := range bad {
 			vars := []wire.Var{{K: wire.Bytes("a"), V: wire.StrV(t)}}
 			for _, m := range dtMethods {
@@ -138,7 +153,7 @@ func init() {
 			}
 		}
 		rc.cov("exhaustive", true)
-		rc.cov("rule", "grid of 222 ISO-8601 strings (five types; offsets Z, +00, -04, -04:30, +05:30, -12, +14; day / month / year / leap-day boundaries 0001-01-01 .. 9999-12-31; 0..9 fractional digits) plus 22 malformed strings and non-string items x six datetime methods, with .type() and .string(), precisions 0..7 x {WithTZ, not} x context zones {UTC, +05:30, America/New_York} (thorough also -04:00); pairwise comparisons (every 5th string, thorough every 2nd, and all pairs of 15 values in and around the hours America/New_York skips and repeats) with < == >= through .datetime() and after explicit casts to the common type; every result judged against spec/DateTime.tla")
+		rc.cov("rule", "grid of 222 ISO-8601 strings (five types; offsets Z, +00, -04, -04:30, +05:30, -12, +14; day / month / year / leap-day boundaries 0001-01-01 .. 9999-12-31; 0..9 fractional digits) plus 22 malformed strings and non-string items x six datetime methods, with .type() and .string(), precisions 0..7 x {WithTZ, not} x context zones {UTC, +05:30, America/New_York} (thorough also -04:00); pairwise comparisons (every 5th string, thorough every 2nd, and all pairs of 25 values around the hours America/New_York skips and repeats and around a day boundary; 20 strings whose fraction lies exactly half way at some precision x four typed methods x precisions 0..7) with < == >= through .datetime() and after explicit casts to the common type; every result judged against spec/DateTime.tla")
 		rc.cov("universe", map[string]any{"strings": len(strs), "cases": len(u.Cases)})
 		rc.execFamily(u, "C17", "C01")
 	}
